@@ -3,6 +3,7 @@ from __future__ import annotations
 
 import json
 import os
+import sys
 import time
 
 VERIF = os.path.dirname(os.path.dirname(os.path.abspath(__file__)))
@@ -190,12 +191,19 @@ def finish(ctx, t0, level, explanation, rule_text, trusted_base, checker_cmd):
     os.makedirs(EVID, exist_ok=True)
     with open(os.path.join(EVID, '%s.json' % ctx.prop), 'w', encoding='utf-8') as fh:
         json.dump(ev, fh, indent=1, ensure_ascii=False, default=str)
-    print('%s tier=%s obligations=%d discharged=%d new=%d known=%d errors=%d wall=%.2fs'
-          % (ctx.prop, ctx.tier, total, done, len(new), len(listed), len(ctx.errors), wall))
-    for k, v in sorted(ctx.analysed.items()):
-        print('  analysed %s: %s' % (k, v))
-    for ln in lines:
-        print(ln)
+    try:
+        print('%s tier=%s obligations=%d discharged=%d new=%d known=%d errors=%d wall=%.2fs'
+              % (ctx.prop, ctx.tier, total, done, len(new), len(listed), len(ctx.errors), wall))
+        for k, v in sorted(ctx.analysed.items()):
+            print('  analysed %s: %s' % (k, v))
+        for ln in lines:
+            print(ln)
+        sys.stdout.flush()
+    except BrokenPipeError:
+        try:
+            sys.stdout = open(os.devnull, 'w')
+        except Exception:
+            pass
     if new:
         return 1
     if ctx.errors:
